@@ -342,6 +342,13 @@ func loadExemptTable(p *core.Prog, name string) map[string]string {
 				ck = p.CanonKey(e.Key)
 			}
 			out[ck] = e.Reason
+			if e.CKey2 != "" && e.CKey2 != ck {
+				if _, dup := out["short:"+e.CKey2]; dup {
+					out["short:"+e.CKey2] = "" // two entries share the short form: it identifies neither
+				} else {
+					out["short:"+e.CKey2] = ck
+				}
+			}
 			if len(e.Needs) > 0 {
 				cn := e.CNeeds
 				if len(cn) != len(e.Needs) {
@@ -357,6 +364,18 @@ func loadExemptTable(p *core.Prog, name string) map[string]string {
 		}
 	}
 	return out
+}
+
+// exemptKey returns the table key an obligation key matches: itself, or the entry whose short form equals the short form
+// of the obligation key.
+func exemptKey(table map[string]string, key string) (string, bool) {
+	if _, ok := table[key]; ok {
+		return key, true
+	}
+	if ck, ok := table["short:"+core.ShortKey(key)]; ok && ck != "" {
+		return ck, true
+	}
+	return "", false
 }
 
 var exemptNeeds = map[string][]string{}     // canonical key -> canonical texts a dominating guard must mention
@@ -509,8 +528,9 @@ func c13Downgrade(r *core.Report, scope []*core.Func) {
 			if cnt[key] > 1 {
 				key = fmt.Sprintf("%s#%d", key, cnt[key])
 			}
-			if reason, listed := table[key]; listed && bad != "" {
-				used[key] = true
+			if tk, listed := exemptKey(table, key); listed && bad != "" {
+				reason := table[tk]
+				used[tk] = true
 				r.OK(rule, key, pos(r, e.Ast), "exempt (tables/c13_exempt.json): "+reason)
 				continue
 			}
